@@ -18,7 +18,7 @@ const rule = "provider populations with drawn qualifier in {no method, \"\", g1,
 
 var kinds = []int{0, 1, 2, 2, 3, 3, 4, 6, 7, 8, 10}
 var names = []string{"n1", "n2", "n3", "n4", "n5", "n6", "n7"}
-var quals = []string{"", "g1", "g2", "g3", "g1", "g2"}
+var quals = []string{"", "g1", "g2", "g3", "g1", "g2", "G1", "g1"} // includes a variant that differs in letter case only
 
 func genField(t *rapid.T, provs []pop.ProvSpec, forceEmptyOptional bool) pop.FieldSpec {
 	typ := pop.DrawFieldType(t, provs, rapid.IntRange(0, 2).Draw(t, "slice") == 0)
@@ -32,11 +32,22 @@ func genField(t *rapid.T, provs []pop.ProvSpec, forceEmptyOptional bool) pop.Fie
 		args += ",qualifier="
 	default:
 		n := rapid.IntRange(1, 3).Draw(t, "nq")
-		qs := rapid.SliceOfNDistinct(rapid.SampledFrom([]string{"g1", "g2", "g3", "gX"}), n, n, rapid.ID[string]).Draw(t, "qs")
+		qs := rapid.SliceOfNDistinct(rapid.SampledFrom([]string{"g1", "g2", "g3", "gX", "G1"}), n, n, rapid.ID[string]).Draw(t, "qs")
 		args += ",qualifier=" + strings.Join(qs, " ")
 	}
 	if rapid.IntRange(0, 2).Draw(t, "optional") > 0 {
 		args += ",required=false"
+	}
+	switch rapid.IntRange(0, 7).Draw(t, "pointkind") {
+	case 0:
+		// by name AND qualified: the named component must also carry a requested qualifier
+		if !strings.HasPrefix(typ, "[]") && len(provs) > 0 {
+			p := rapid.SampledFrom(provs).Draw(t, "namedtarget")
+			return pop.FieldSpec{Type: typ, Tag: fmt.Sprintf(`wire:"%s%s"`, pop.RegisteredName(p), args)}
+		}
+	case 1, 2:
+		// func points are narrowed exactly like wire points
+		return pop.FieldSpec{Type: typ, Tag: fmt.Sprintf(`func:"Comp,returns=*%s"`, args)}
 	}
 	return pop.FieldSpec{Type: typ, Tag: fmt.Sprintf(`wire:"%s"`, args)}
 }
